@@ -30,7 +30,7 @@ MANIFEST = {
     "technique": "Lean 4 refinement proof (code encoder o describe_state = specification over objects) + ground-truth differential rig",
     "design_ref": "5/C09",
 }
-MODULES = ["PrimaiteModel.Props.C09"]
+MODULES = ["PrimaiteModel.Props.C09", "PrimaiteModel.Props.C09Cfg"]
 EXE = "drv_c02"
 
 
@@ -393,15 +393,7 @@ def slot_oracle(ctx: Ctx, rng: Rng, n: int) -> int:
     return bad
 
 
-def guarded(ctx: Ctx, name: str, fn, *a):
-    """a rig family must never take the whole run down: a crash inside it is a broken correspondence obligation (reported with its
-    traceback) and the other families still run and search for a concrete failing input"""
-    import traceback
-    try:
-        return fn(*a)
-    except Exception as e:  # noqa: BLE001
-        ctx.oblige(f"rig:{name} ran to completion", "correspondence", False, f"{type(e).__name__}: {e}\n{traceback.format_exc()[-1800:]}")
-        return None
+guarded = c02.guarded
 
 
 def run(ctx: Ctx):
